@@ -67,14 +67,17 @@ class Twin(Checker):
 
 
 def explore(lr: LatticeRun, n: int, modes) -> None:
-    Ks = None if n <= 4 else list(A.layered_knowledge(n, 2 if n == 5 else 1))
+    if "few" in modes:
+        Ks = A.few_knowledge(n)[:5] if n >= 9 else A.few_knowledge(n)
+    else:
+        Ks = None if n <= 4 else list(A.layered_knowledge(n, 2 if n == 5 else 1))
     if "pairs" in modes and Ks is not None:
         Ks += list(A.distance2_knowledge(n))
     lr.fresh(Ks=Ks)
     if "euler" in modes:
         lr.euler(compare_canonical=False)
     if "dirty" in modes:
-        lr.dirty(2 if n == 3 else 1, Ks=None if n == 3 else list(A.layered_knowledge(n, 1))[:40])
+        lr.dirty(2 if n == 3 else 1, Ks=None if n == 3 else list(A.layered_knowledge(n, 1))[:40 if n <= 6 else 6])
 
 
 def twin_unit(u) -> Stats:
@@ -235,10 +238,12 @@ def run(run: Run) -> None:
     for i, g in enumerate(A.a3_sa() if quick else A.a3_sa((-2, -1, 0, 1, 2))):
         for tag, gv in A.with_shifts([g], 3):
             us.append((3, f"{tag}#{i}", gv, ("euler", "dirty") if tag == "shift" else ("euler",), 0.0))
+        for tag, gv in A.with_scales([g], 3):
+            us.append((3, f"{tag}#{i}", gv, (), 0.0))
     games4 = list(enumerate(A.a4_sa_reps(seed))) if quick else list(enumerate(A.a4_sa_full()))
     for i, g in games4:
-        variants = list(A.with_shifts([g], 4))
-        for j, (tag, gv) in enumerate(variants if not quick else [variants[(i + seed) % 3]]):
+        variants = A.all_variants(g, 4)
+        for j, (tag, gv) in enumerate(variants if not quick else [variants[(i + seed) % 5]]):
             modes = ("euler",) if (quick and i % 15 == seed % 15) or (not quick and j == 1 and i % 64 == seed % 64) else ()
             us.append((4, f"{tag}#{i}", gv, modes, 0.0))
     from .c01 import layered_game
@@ -254,6 +259,16 @@ def run(run: Run) -> None:
             if quick and not tag.startswith(("matching-shift", "star-shift", "star+convex")):
                 continue
             us.append((n, f"n{n}:{tag}", gv, ("pairs",) if n == 6 else (), 0.0))
+    # 7 and 8 players near the minimal information (few values known), negative games, reveal/un-reveal histories; 9 players on a few K
+    for n in (7, 8):
+        us.append((n, f"n{n}:budget2", A.budget_game(n, 2), ("few", "dirty") if n == 7 else ("few",), 0.0))
+        us.append((n, f"n{n}:star+convex", dict(A.larger_n_samples(n))["star+convex"], ("few",), 0.0))
+    us.append((9, "n9:budget3", A.budget_game(9, 3), ("few",), 0.0))
+    # four players, NOT superadditive, many exact ties (324 games x all 1024 knowledge sets)
+    for i, g in enumerate(A.a4_any_sample()):
+        if quick and i % 3 != seed % 3:
+            continue
+        us.append((4, f"any4#{i}", g, (), 0.0))
     # non-superadditive inputs are inside "every incomplete game on which both are defined": all of A3-ANY
     for i, g in enumerate(A.a3_any()):
         if quick and i % 3 != seed % 3:
